@@ -145,4 +145,11 @@ PROPS = {
         ["Props.RangeExtra:C06_range"], [("fam_range", "gen_seal_rare", 150, 6000)],
         "sealed words of a message ending in a corner of the sealing rule",
         "Seal words in the corners of the sealing rule are compared word for word.", "-", "correspondence"),
+    "C09_float": _part(
+        ["Props.C05_float:C05_lazy_enc_eq_eager"],
+        [("fam_floatq", "gen_lazy", 120, 8000), ("fam_floatq", "gen_valid", 80, 5000)],
+        "float-built categorical model (eager and lazy) queried for symbols n, n+1, 2^40 outside its support",
+        "C05_lazy_enc_eq_eager: for EVERY symbol, in or out of range, the lazy encoder returns exactly the eager "
+        "table's answer (None outside 0..n-1).", "Flocq-based; the four allow-listed standard-library axioms.",
+        "Coq proof + correspondence"),
 }
